@@ -87,6 +87,7 @@ func runCheck(o checkOpts) int {
 			}
 		}
 	}
+	results = append(results, e.verifyProtocols(o.prop)...)
 	extra := e.extraChecks(o.prop)
 	results = append(results, extra...)
 	genS := time.Since(t0).Seconds() - loadS
@@ -100,7 +101,7 @@ func runCheck(o checkOpts) int {
 	// aggregate per obligation name
 	agg := map[string]*aggOb{}
 	var names []string
-	for _, ob := range e.obls {
+	for _, ob := range append(append([]*Obligation{}, e.obls...), e.engineObls...) {
 		a := agg[ob.Name]
 		if a == nil {
 			a = &aggOb{name: ob.Name, verdict: "discharged"}
